@@ -39,7 +39,7 @@ class C14(BaseCheck):
   REQUIRED_CLASSES = ('outcome:value', 'outcome:declared-exc', 'outcome:declared-exc-not-first', 'outcome:app-exc', 'outcome:void',
                       'iface:hello', 'iface:verif', 'iface:ext', 'iface:leaf', 'chunk:1cut', 'chunk:2cut', 'chunk:kcut',
                       'text:nonascii', 'text:empty', 'concurrent', 'two-services', 'short-sends', 'alternating-outcomes', 'call:positional-and-keyword', 'call:keyword-only', 'reply:slow-or-pausing', 'concurrent:interleaved-pieces',
-                      'text:over-a-mebibyte', 'call-issued-while-opening')
+                      'text:over-a-mebibyte', 'call-issued-while-opening', 'late-reply-then-next-calls')
   ASSUMPTIONS = ('interfaces: the repository\'s hello.Hello plus a hand-written module in the shape the '
                  'Thrift compiler emits (py:dynamic); no Thrift compiler is available offline',)
   QUICK_CASES = 480
@@ -288,6 +288,37 @@ class C14(BaseCheck):
       if judge(call_once(), '1cut(%d,) with a pause of %.0f s' % (cut_, plan['chunks'][0][1])):
         done += 1
       plan['chunks'] = None
+    if good and idx % 5 == 4:
+      # a reply that arrives after its call has timed out (a client with a short timeout, a slow server), and the
+      # next calls made right away on the same client: each has the outcome of its own request
+      classes.add('late-reply-then-next-calls')
+      plan['chunks'] = None
+      quick_ = Thrift.NewClient(Iface, 'tcp://th:%d' % self.port, timeout=0.5)
+      client_, client = client, quick_
+      try:
+        plan['delay'] = rng.choice([0.7, 0.9])
+        try:
+          # (another call than the case's own, so that its late reply cannot pass for a reply to the calls after it)
+          r_late = ('ok', (quick_.echo if hasattr(quick_, 'echo') else quick_.hi)('late-reply-%d' % idx))
+        except BaseException as e_:  # noqa
+          r_late = ('raised', e_)
+        out.obligations += 1
+        from scales.message import TimeoutError as ScalesTimeout
+        if not (r_late[0] == 'raised' and isinstance(r_late[1], ScalesTimeout)):
+          out.violate('reply:late-reply-not-a-timeout', 'a call with a 0.5 s timeout whose reply was sent %.1f s later ended with %r' % (
+            plan['delay'], r_late[1]), {'method': method})
+        late_by = plan['delay']
+        plan['delay'] = 0.001
+        if judge(call_once(), 'none, right after a call on this client had timed out (its reply is still to come)'):
+          done += 1
+        env.advance(late_by)        # the late reply has arrived by now, wherever it went
+        for _k in range(2):
+          if judge(call_once(), 'none, after the late reply of a timed-out call on this client had arrived'):
+            done += 1
+          env.advance(rng.choice([0.0, 0.1]))
+      finally:
+        client = client_
+        plan['delay'] = 0.001
     if good and idx % 4 == 1:
       # a client that is used at once, while it is still opening (no waiting for the open at build time, the
       # connect takes 50 ms): the call is issued before the open completes and has the same outcome
